@@ -109,7 +109,8 @@ class Walk:
             if self.deep_legal:
                 self.offer_legal_on_copy(legal)
         if 'C01' not in self.props and not fin:
-            self.offer_rejected(legal)
+            if not getattr(self, 'is_fork', False):
+                self.offer_rejected(legal)
             self.fork(legal)
         if fin and 'C02' in self.props:
             self.offer_after_end()
@@ -169,11 +170,11 @@ class Walk:
 
     def fork(self, legal):
         """A deep copy (or a pickle round trip) of an auction in progress is an auction in its own right (search code forks
-        them, workers receive them): at some prefixes the copy must show the same state, is then continued with other calls -
+        them, workers receive them): at an eighth of the prefixes the copy must show the same state, is then continued with other calls -
         a bid in another denomination, a double, a few passes - under the same checks as any auction, and is thrown away;
         the original must go on as if nothing had happened (compared at the following prefixes and at the end)."""
         k = h64([self.dealer, self.calls, 'fork'])
-        if k % 5 or getattr(self, 'is_fork', False):
+        if k % 8 or getattr(self, 'is_fork', False):
             return
         by_pickle = (k >> 5) % 2 == 1
         case = self.case({'forked_by': 'pickle round trip' if by_pickle else 'copy.deepcopy'})
